@@ -14,7 +14,19 @@ PANICKING_CALLEES = {
     "Vec::drain": "range out of bounds", "Vec::split_off": "at > len", "Vec::swap": "index", "slice::swap": "index",
     "String::remove": "boundary", "String::insert": "boundary", "String::insert_str": "boundary",
     "String::drain": "boundary", "String::replace_range": "boundary", "String::split_off": "boundary",
+    "String::truncate": "not a char boundary",
     "slice::chunks": "size 0", "slice::windows": "size 0", "Iterator::step_by": "step 0",
+    "slice::chunks_exact": "size 0", "slice::rchunks": "size 0", "slice::chunks_mut": "size 0",
+    "slice::rotate_left": "mid > len", "slice::rotate_right": "k > len", "slice::copy_within": "range out of bounds",
+    "Vec::extend_from_within": "range out of bounds", "Vec::splice": "range out of bounds", "slice::select_nth_unstable": "index >= len",
+    "str::repeat": "capacity overflow", "char::from_digit": "radix > 36", "char::to_digit": "radix > 36",
+    "VecDeque::swap": "index", "VecDeque::insert": "index > len", "VecDeque::split_off": "at > len", "VecDeque::drain": "range out of bounds",
+    "Iterator::sum": "overflow (inherits the caller's overflow checks)", "Iterator::product": "overflow (inherits the caller's overflow checks)",
+    "Duration::new": "overflow", "Duration::from_secs_f32": "negative/overflow", "Instant::duration_since": None,
+    "Div::div": "division by zero (Duration / u32, integers behind a trait call)", "Rem::rem": "division by zero",
+    "Mul::mul": "overflow (Duration * u32)", "DivAssign::div_assign": "division by zero", "RemAssign::rem_assign": "division by zero",
+    "MulAssign::mul_assign": "overflow", "Neg::neg": "overflow for MIN",
+    "process::exit": "terminates the process", "process::abort": "aborts the process", "thread::spawn": "OS thread creation failure",
     "RefCell::borrow": "already mutably borrowed", "RefCell::borrow_mut": "already borrowed",
     "Add::add": "overflow (time types)", "Sub::sub": "overflow (time types)", "AddAssign::add_assign": "overflow",
     "SubAssign::sub_assign": "overflow",
@@ -899,6 +911,19 @@ class Discharger:
             own = self.owner_id(site.body)
             if own != site.body.id:
                 recs = self.records.get((own, site.desc, self.owner_ordinal(site)))
+        if not recs:
+            # the record names a closure of the owning function (an immediately-invoked closure, an async block) and the code
+            # has since moved into the function itself or a private helper of it: same owner, same descriptor, same ordinal
+            # among the owner's sites — and the premises are re-checked on the site as it is now
+            own = self.owner_id(site.body)
+            oo = None
+            for (fn_, desc_, ord_), r_ in self.records.items():
+                if desc_ == site.desc and "::{closure" in fn_ and fn_.split("::{closure")[0] == own:
+                    if oo is None:
+                        oo = self.owner_ordinal(site)
+                    if ord_ == oo:
+                        recs = r_
+                        break
         if not recs:
             return None
         failed = []
